@@ -204,6 +204,21 @@ extern "C" void c08_run()
       c08_obj_created(i);
     }
   }
+  // Fast-forward: the state after 2^32-4 explicit refInc() calls on object 0, reached by writing
+  // the counter directly (it follows the vtable pointer) instead of making four billion calls.
+  const long long FF = (1LL << 32) - 4;
+  bool ff = false;
+  if (p->fast_forward) {
+    unsigned long long *raw = reinterpret_cast<unsigned long long *>(reinterpret_cast<char *>(static_cast<RefCountedObject *>(objs[0])) + sizeof(void *));
+    long long before = objs[0]->useCount();
+    *raw += (unsigned long long)FF;
+    if (before == 1 && (objs[0]->useCount() & 0xffffffffLL) == ((1 + FF) & 0xffffffffLL)) {
+      ff = true;
+      c08_fast_forward(0, FF);
+    } else {
+      *raw -= (unsigned long long)FF;  // unknown layout: leave the object as it was
+    }
+  }
   Ctx &c0 = *ctxs[0];
   // give thread 0 one handle per object so that later operations have sources
   for (int i = 0; i < p->nobj; i++) {
@@ -264,6 +279,12 @@ extern "C" void c08_run()
   }
   finish_ctx(c0);
   check_counts();
+  if (ff && c08_obj_alive(0)) {
+    unsigned long long *raw = reinterpret_cast<unsigned long long *>(reinterpret_cast<char *>(static_cast<RefCountedObject *>(objs[0])) + sizeof(void *));
+    *raw -= (unsigned long long)FF;
+    c08_fast_forward(0, -FF);
+    check_counts();
+  }
   for (int i = 0; i < p->nobj; i++)
     if (!p->release_creator_during[i]) {
       SimTag tag(SIM_TAG_SUT);
